@@ -34,6 +34,40 @@ fn long_token_light(kind: &str) -> Vec<generic::Doc> {
     generic::long_token_docs(&long_contexts(kind)).into_iter().map(|d| generic::Doc::new(format!("~{}", d.name), d.bytes)).collect()
 }
 
+/// Repetition family (C05): one construct repeated N times wherever the grammar loops (section
+/// entries, symbols, comment lines, gates, justice sizes); see the cnf harness.
+fn repetition_docs(kind: &str, n: usize) -> Vec<generic::Doc> {
+    let mut v = Vec::new();
+    let magic = if kind == "aag" { "aag" } else { "aig" };
+    let one_input = if kind == "aag" { format!("{magic} 1 1 0 0 0\n2\n") } else { format!("{magic} 1 1 0 0 0\n") };
+    // outputs / bad / constraints / fairness: N entries of the constant
+    v.push(generic::repeat_doc(&format!("{kind}/outputs"), format!("{magic} 0 0 0 {n} 0\n").as_bytes(), b"0\n", n, b""));
+    v.push(generic::repeat_doc(&format!("{kind}/bad"), format!("{magic} 0 0 0 0 0 {n}\n").as_bytes(), b"1\n", n, b""));
+    v.push(generic::repeat_doc(&format!("{kind}/constraints"), format!("{magic} 0 0 0 0 0 0 {n}\n").as_bytes(), b"0\n", n, b""));
+    v.push(generic::repeat_doc(&format!("{kind}/fairness"), format!("{magic} 0 0 0 0 0 0 0 0 {n}\n").as_bytes(), b"0\n", n, b""));
+    // justice: N empty properties; one property of N literals
+    v.push(generic::repeat_doc(&format!("{kind}/justice-empty"), format!("{magic} 0 0 0 0 0 0 0 {n}\n").as_bytes(), b"0\n", n, b""));
+    v.push(generic::repeat_doc(&format!("{kind}/justice-long"), format!("{magic} 0 0 0 0 0 0 0 1\n{n}\n").as_bytes(), b"1\n", n, b""));
+    // symbols, comment lines (also without a declared section: rejected, but after a long scan)
+    v.push(generic::repeat_doc(&format!("{kind}/symbols"), one_input.as_bytes(), b"i0 name\n", n, b""));
+    v.push(generic::repeat_doc(&format!("{kind}/comment-lines"), format!("{one_input}c\n").as_bytes(), b"x\n", n, b""));
+    v.push(generic::repeat_doc(&format!("{kind}/blank-comment-lines"), format!("{one_input}c\n").as_bytes(), b"\n", n, b""));
+    v.push(generic::repeat_doc(&format!("{kind}/surplus-lines"), one_input.as_bytes(), b"\n", n, b""));
+    // latches and gates
+    if kind == "aag" {
+        v.push(generic::numbered_doc("aag/inputs", format!("aag {n} {n} 0 0 0\n").as_bytes(), n, &|k| format!("{}\n", 2 * (k + 1)), b""));
+        v.push(generic::numbered_doc("aag/latches", format!("aag {n} 0 {n} 0 0\n").as_bytes(), n, &|k| format!("{} 0\n", 2 * (k + 1)), b""));
+        v.push(generic::numbered_doc("aag/gates", format!("aag {n} 0 0 0 {n}\n").as_bytes(), n, &|k| format!("{} 0 1\n", 2 * (k + 1)), b""));
+        v.push(generic::numbered_doc("aag/gate-chain", format!("aag {} 1 0 1 {n}\n2\n{}\n", n + 1, 2 * (n + 1)).as_bytes(), n, &|k| format!("{} {} 2\n", 2 * (k + 2), 2 * (k + 1)), b""));
+    } else {
+        v.push(generic::repeat_doc("aig/latches", format!("aig {n} 0 {n} 0 0\n").as_bytes(), b"0\n", n, b""));
+        // every gate x = (x-2) & (x-2): deltas 2, 0
+        v.push(generic::repeat_doc("aig/gate-chain", format!("aig {} 1 0 1 {n}\n{}\n", n + 1, 2 * (n + 1)).as_bytes(), &[2u8, 0u8], n, b""));
+        v.push(generic::repeat_doc("aig/gates-of-constants", format!("aig {n} 0 0 0 {n}\n").as_bytes(), &[1u8, 0u8], n, b""));
+    }
+    v
+}
+
 fn main() {
     mc_core::subject::install_quiet_panic_hook();
     let cli = parse_cli();
@@ -131,6 +165,15 @@ fn main() {
                 let mut subs = subjects::subjects(kind, &tier.pick(vec!["u32", "u8", "usize"], subjects::LITS.to_vec()));
                 // what was parsed must also survive the renumbering entry point of aig.rs
                 subs.push(subjects::make(&format!("{kind}-renumber"), "u32"));
+                {
+                    let mut rsubs = subjects::subjects(kind, &["u32"]);
+                    rsubs.push(subjects::make(&format!("{kind}-renumber"), "u32"));
+                    let n = if generic::deep_profile() { 200_000 } else { tier.pick(100_000, 300_000) };
+                    groups.push((format!("{kind}-repetitions"), rsubs, repetition_docs(kind, n)));
+                    if generic::deep_profile() {
+                        continue;
+                    }
+                }
                 let inp = gen::inputs_seq(kind, tier, tier.pick(3, 4));
                 sample_docs(&mut report, kind, &inp.sequences);
                 let mut docs = inp.all();
@@ -141,7 +184,7 @@ fn main() {
             }
             generic::c05_isolated(&groups, tier.pick(40.0, 1500.0), &mut report);
             report.traces = report.evaluations;
-            "every document of the generated families x every subject x {one-shot, byte-wise}, each (subject, document) unit run in an isolated single-threaded worker process: the run must return a value (no panic incl. overflow / debug assertion in the checked build, no abort, no stack overflow, no hang), within 2 s, with peak requested heap <= 64 x consumed bytes + 2 MiB + 4 chunks (counting allocator, per thread). Non-trivial: every case (each is a distinct input x subject)".into()
+            "every document of the generated families x every subject x {one-shot, byte-wise}, each (subject, document) unit run in an isolated single-threaded worker process: the run must return a value (no panic incl. overflow / debug assertion in the checked build, no abort, no stack overflow, no hang), within 2 s, with peak requested heap <= 64 x consumed bytes + 2 MiB + 4 chunks (counting allocator, per thread). Non-trivial: every case (each is a distinct input x subject). Repetition family: one construct (section entry, justice size, symbol, comment line, gate, gate chain that the renumbering has to descend) repeated 100 000 - 300 000 times; the quick tier runs it in the UNOPTIMISED profile as well (opt-level 0: recursion that an optimiser turns into a loop overflows the stack only there)".into()
         }
         "C08" => {
             for kind in FORMATS {
